@@ -42,6 +42,8 @@ def process(run, programs, evaluator, metas=None, limit=4, chunk=400, label="pro
             meta = metas[idx] if metas else None
             idx += 1
             stats["requests"] += len(res)
+            if any(a.startswith("err") for (_, a, _) in res):
+                stats["with_error"] = stats.get("with_error", 0) + 1
             pv = None
             try:
                 pv = evaluator(p, res, meta)
